@@ -829,8 +829,12 @@ def rule_r9(ctx) -> List[R.Inst]:
     acc = None
     for nm in names:
         ds = local_defs(fn.node, nm)
-        if ds and isinstance(ds[0], (ast.List, ast.Dict, ast.Call, ast.Set)):
-            acc = (nm, ds[0])
+        # the name may be re-bound (a dict collected in the loop, turned into a list afterwards): a keyed container anywhere in
+        # its history is what decides
+        pick = next((d for d in ds if isinstance(d, (ast.Dict, ast.Set))), None) or next(
+            (d for d in ds if isinstance(d, (ast.List, ast.Call))), None)
+        if pick is not None:
+            acc = (nm, pick)
     if acc is None:
         return [R.undec(rid, "data-lines", file, call.lineno, "accumulator of the data lines not found")]
     nm, init = acc
